@@ -161,6 +161,10 @@ func main() {
 		os.Exit(2)
 	}
 	prop := os.Args[1]
+	if prop == "C10child" {
+		c10child()
+		return
+	}
 	fs := flag.NewFlagSet("vh", flag.ExitOnError)
 	seed := fs.Uint64("seed", 1, "seed")
 	tier := fs.String("tier", "quick", "quick|thorough")
